@@ -159,6 +159,10 @@ func replay(run *evid.Run, c *checker, path string) error {
 	}
 	defer w.Close()
 	c.verbose = true
+	w.Hooks.OnMidStep = func(w *chanmc.World, p int) {
+		fmt.Printf("INFO  mid-step: %c has verified the new commitment_signed, has not revoked yet\n", 'A'+p)
+		c.checkMidStep(w, p, true)
+	}
 	fmt.Printf("INFO replaying %d steps on %s\n", len(doc.Replay.History), doc.Replay.Params.Name())
 	for i, a := range doc.Replay.History {
 		fmt.Printf("INFO step %d: %s\n", i, a)
@@ -209,6 +213,15 @@ func TestC05(t *testing.T) {
 			fullSpaces++
 		}
 		sp = append(sp, jobs[i].sp)
+		sp[i].P.ProbeMidStep = true
+		sp[i].Hooks.OnMidStep = func(w *chanmc.World, p int) {
+			defer func() {
+				if v := recover(); v != nil {
+					w.Violate("c05:panic", fmt.Sprintf("panic while deriving/validating close resolutions mid-step: %v\n%s", v, debug.Stack()))
+				}
+			}()
+			c.checkMidStep(w, p, full)
+		}
 		sp[i].OnState = func(w *chanmc.World) {
 			defer func() {
 				if v := recover(); v != nil {
@@ -219,7 +232,7 @@ func TestC05(t *testing.T) {
 		}
 	}
 	agg := chanmc.RunSpaces(run, sp, time.Now().Add(budget), 0)
-	rule := "cases = (distinct canonical state of the two-peer world [chanmc: both real LightningChannels + wires + explorer HTLC table; full interleaving or deviation-bounded, incl. `cut` = both sides reload from disk], node in {A,B}, confirmed commitment in {own latest, counterparty current, counterparty pending}); " +
+	rule := "cases = (distinct canonical state of the two-peer world [chanmc: both real LightningChannels + wires + explorer HTLC table; full interleaving or deviation-bounded, incl. `cut` = both sides reload from disk, and the terminal mid-step probe `probe>X` = X between ReceiveNewCommitment and RevokeCurrentCommitment, judged for X], node in {A,B}, confirmed commitment in {own latest, counterparty current, counterparty pending}); " +
 		"each case derives the node's real resolutions (ForceClose / NewUnilateralCloseSummary) and runs the btcd script interpreter (StandardVerifyFlags, true prev-outs) on the signed commitment vs the funding output, every second-level tx (as stored and re-signed in an aggregated sweep), and every sweep input built with the resolvers' input constructors; every CSV/CLTV-locked spend must also FAIL with a locktime error one block early; claimable value is compared with balance + HTLCs - 2nd-level fees - dust from the explorer's HTLC table. " +
 		"evaluations = interpreter executions (accepting + early-spend controls); distinct_nontrivial = distinct canonical states at which at least one HTLC-output spend was validated"
 	cov := agg.Coverage(rule)
@@ -235,6 +248,7 @@ func TestC05(t *testing.T) {
 		"states_with_htlc_output_spends":             c.nontrivial.Load(),
 		"states_after_reload":                        c.reloadedState.Load(),
 		"states_with_pending_remote_commit":          c.pendingState.Load(),
+		"mid_step_probes":                            c.midSteps.Load(),
 		"close_scenarios_validated":                  c.scenarios.Load(),
 		"close_scenarios_with_htlc_spends":           c.scenWithHtlc.Load(),
 		"close_scenarios_identical_to_validated_one": c.memoHits.Load(),
@@ -250,6 +264,7 @@ func TestC05(t *testing.T) {
 	}
 	run.Assumptions = append(run.Assumptions,
 		"scripts of at most 3 HTLCs and one fee update on the chanmc fixture (5 BTC per side, dust 200/1300, CSV 5/4, lease expiry 500000); custom (aux-leaf) channels outside the alphabet",
+		"mid-step probes (terminal action probe>X: X has run ReceiveNewCommitment but not RevokeCurrentCommitment) judge all three scenarios for X on the live object; the other node's objects are untouched by that call",
 		"a party's own close is checked from local height 1 on (the fixture's height-0 commitment carries a fake signature)",
 		"for a counterparty close the confirmed transaction is the node's own copy of that commitment (C01's oracle, active in this run, proves it equals the counterparty's)",
 		"witness types are chosen by a transcription of contractcourt's resolver switches (commit_sweep/htlc_timeout/htlc_success/anchor resolvers) using the exported input constructors; the resolvers' goroutine logic itself is not executed",
